@@ -157,4 +157,76 @@ example : ∀ m c, c ∈ chain.children m → c < m := by
   · cases h
   · simp at h; omega
 
+/-! ## where `Stable` comes from: passes that read of the modules below only what later passes leave alone -/
+
+/-- What a pass may read: its own module's state, and of every module below it a *view* (`view k`: what pass `k` looks at —
+    for the connection checks the module's pre-flattening IO, for the flatteners the cached flattened ports). -/
+def Local {V : Type} (sys : Sys S) (view : Nat → S → V) : Prop :=
+  ∀ k σ σ' x, σ x = σ' x → (∀ y, Reach sys x y → y ≠ x → view k (σ y) = view k (σ' y)) → sys.apply k σ x = sys.apply k σ' x
+
+/-- Later passes leave that view alone (what `_pre_flattening_io` and the per-module caches are for). -/
+def Frozen {V : Type} (C : Nat → Nat → S) (view : Nat → S → V) : Prop :=
+  ∀ k l y, k + 1 ≤ l → view k (C l y) = view k (C (k + 1) y)
+
+/-- On a design elaborated in step — everything below exactly one pass ahead — pass `k` takes level `k` to level `k + 1`. -/
+def InStep (sys : Sys S) (C : Nat → Nat → S) (n : Nat) : Prop :=
+  ∀ k x, k < n → sys.apply k (fun y => if y = x then C k x else C (k + 1) y) x = some (C (k + 1) x)
+
+/-- **`Stable` follows** from locality, frozen views and the in-step behaviour: a pass cannot tell a sub-module elaborated long
+    ago (by an earlier call, under another parent) from one elaborated just now. -/
+theorem stable_of_frozen_views {V : Type} (sys : Sys S) (C : Nat → Nat → S) (n : Nat) (view : Nat → S → V)
+    (hl : Local sys view) (hf : Frozen C view) (hs : InStep sys C n) : Stable sys C n := by
+  intro k x σ hk hc
+  rw [← hs k x hk]
+  apply hl k σ _ x
+  · simp [hc.1]
+  · intro y hy hne
+    obtain ⟨l, hl', hσ⟩ := hc.2 y hy hne
+    simp only [hne, ↓reduceIte]
+    rw [hσ]
+    exact hf k l y hl'
+
+/-- History independence from the three code-level conditions. -/
+theorem history_independent_of_frozen_views {V : Type} (sys : Sys S) (hdag : ∀ m c, c ∈ sys.children m → c < m)
+    (C : Nat → Nat → S) (n : Nat) (view : Nat → S → V) (hl : Local sys view) (hf : Frozen C view) (hs : InStep sys C n)
+    (fuel : Nat) (calls : List (List Nat)) (hfu : ∀ tops ∈ calls, ∀ t ∈ tops, t < fuel) :
+    ∀ tops ∈ calls, ∀ t ∈ tops, ∀ y, Reach sys t y →
+      (after sys n fuel calls (fresh C)).σ y = C n y ∧ ∀ j, (after sys n fuel calls (fresh C)).done j y = true ↔ j < n :=
+  history_independent sys hdag C n (stable_of_frozen_views sys C n view hl hf hs) fuel calls hfu
+
+/-- The three conditions are satisfiable by a pass that really reads the modules below: modules carry (level, interface width);
+    every pass checks that each child's interface is the expected one and bumps the level; the view is the interface. -/
+example : ∃ (sys : Sys (Nat × Nat)) (C : Nat → Nat → Nat × Nat),
+    Local sys (fun _ s => s.2) ∧ Frozen C (fun _ s => s.2) ∧ InStep sys C 3 ∧ sys.children 2 = [0, 1] := by
+  let w : Nat → Nat := fun x => x + 1
+  let ch : Nat → List Nat := fun m => if m = 2 then [0, 1] else []
+  refine ⟨⟨ch, fun k σ x => if (σ x).1 = k ∧ ∀ c ∈ ch x, (σ c).2 = w c then some (k + 1, (σ x).2) else none⟩,
+    fun l x => (l, w x), ?_, ?_, ?_, rfl⟩
+  · intro k σ σ' x hx hv
+    have : ∀ c ∈ ch x, (σ c).2 = (σ' c).2 := by
+      intro c hc
+      have hlt : c ≠ x := by
+        intro e; subst e
+        simp only [ch] at hc
+        split at hc <;> simp at hc
+        rename_i h2; subst h2; rcases hc with h | h <;> omega
+      exact hv c (.step x c c hc (.refl c)) hlt
+    simp only [hx]
+    congr 1
+    apply propext
+    constructor
+    · rintro ⟨h1, h2⟩; exact ⟨h1, fun c hc => by rw [← this c hc]; exact h2 c hc⟩
+    · rintro ⟨h1, h2⟩; exact ⟨h1, fun c hc => by rw [this c hc]; exact h2 c hc⟩
+  · intro k l y _; rfl
+  · intro k x _
+    simp only [↓reduceIte, true_and]
+    rw [if_pos]
+    intro c hc
+    have hne : c ≠ x := by
+      intro e; subst e
+      simp only [ch] at hc
+      split at hc <;> simp at hc
+      rename_i h2; subst h2; rcases hc with h | h <;> omega
+    simp [hne, w]
+
 end Hdl21.Props.C07
